@@ -268,6 +268,16 @@ int ICACHE_FLASH_ATTR cfg_str2int(const char *str) {
   return result;
 }
 
+// Time margin: the range is checked before the value is narrowed to signed char;
+// more than 9 characters cannot hold a valid value (and would overflow int)
+signed char ICACHE_FLASH_ATTR cfg_str2margin(const char *str) {
+  int value = cfg_str2int(str);
+  if (strnlen(str, 12) > 9 || value < -1 || value > 100) {
+    return -1;
+  }
+  return value;
+}
+
 // Converts float with the precision specified by decLimit to int multiplied by
 // 10 raised to the power of decLimit, so if decLimit == 2 then "3.1415" -> 314
 unsigned int ICACHE_FLASH_ATTR cfg_str2centInt(const char *str,
@@ -899,42 +909,22 @@ void ICACHE_FLASH_ATTR supla_esp_parse_vars(TrivialHttpParserVars *pVars,
 
         } else if (pVars->current_var == VAR_TM0) {
 #if (RS_MAX_COUNT > 0)
-          cfg->AdditionalTimeMargin[0] =
-            cfg_str2int(pVars->intval);
-          if (cfg->AdditionalTimeMargin[0] < -1 ||
-              cfg->AdditionalTimeMargin[0] > 100) {
-            cfg->AdditionalTimeMargin[0] = -1;
-          }
+          cfg->AdditionalTimeMargin[0] = cfg_str2margin(pVars->intval);
 #endif
 
         } else if (pVars->current_var == VAR_TM1) {
 #if (RS_MAX_COUNT > 1)
-          cfg->AdditionalTimeMargin[1] =
-            cfg_str2int(pVars->intval);
-          if (cfg->AdditionalTimeMargin[1] < -1 ||
-              cfg->AdditionalTimeMargin[1] > 100) {
-            cfg->AdditionalTimeMargin[1] = -1;
-          }
+          cfg->AdditionalTimeMargin[1] = cfg_str2margin(pVars->intval);
 #endif
 
         } else if (pVars->current_var == VAR_TM2) {
 #if (RS_MAX_COUNT > 2)
-          cfg->AdditionalTimeMargin[2] =
-            cfg_str2int(pVars->intval);
-          if (cfg->AdditionalTimeMargin[2] < -1 ||
-              cfg->AdditionalTimeMargin[2] > 100) {
-            cfg->AdditionalTimeMargin[2] = -1;
-          }
+          cfg->AdditionalTimeMargin[2] = cfg_str2margin(pVars->intval);
 #endif
 
         } else if (pVars->current_var == VAR_TM3) {
 #if (RS_MAX_COUNT > 3)
-          cfg->AdditionalTimeMargin[3] =
-            cfg_str2int(pVars->intval);
-          if (cfg->AdditionalTimeMargin[3] < -1 ||
-              cfg->AdditionalTimeMargin[3] > 100) {
-            cfg->AdditionalTimeMargin[3] = -1;
-          }
+          cfg->AdditionalTimeMargin[3] = cfg_str2margin(pVars->intval);
 #endif
 
         } else if (pVars->current_var == VAR_TRG) {
@@ -942,7 +932,7 @@ void ICACHE_FLASH_ATTR supla_esp_parse_vars(TrivialHttpParserVars *pVars,
 
         } else if (pVars->current_var == VAR_PRT) {
           int port = cfg_str2int(pVars->intval);
-          if (port > 0 && port <= 65535) {
+          if (port > 0 && port <= 65535 && strnlen(pVars->intval, 12) <= 9) {
             cfg->Port = port;
           }
 
@@ -955,7 +945,7 @@ void ICACHE_FLASH_ATTR supla_esp_parse_vars(TrivialHttpParserVars *pVars,
 
         } else if (pVars->current_var == VAR_QOS) {
           int qos = pVars->intval[0] - '0';
-          if (qos >= 0 && qos <= 2) {
+          if (qos >= 0 && qos <= 2 && pVars->intval[1] == 0) {
             cfg->MqttQoS = qos;
           }
 
